@@ -18,8 +18,8 @@ Definition mk_newep (b : board) (m : N) : N := if mk_canep b m then (mv_from m +
 Definition mk_put (b : board) (m : N) : N := if negb (mv_promo m =? NoPiece) then mv_promo m else mk_piece b m.
 Definition mk_fifty (b : board) (m : N) : Z :=
   if (mk_piece b m =? Pawn) || negb (mk_capture b m =? NoPiece) then 0%Z else wrap16 (fifty b + 1).
-Definition mk_tok (b : board) (m : N) : N :=
-  tok_set_ep (tok_set_capture (tok_set_castling (tok_set_fifty 0 (fifty b)) (mk_change b m)) (mk_capture b m))
+Definition mk_tok (l : tok_layout) (b : board) (m : N) : N :=
+  tok_set_ep l (tok_set_capture l (tok_set_castling l (tok_set_fifty l 0 (fifty b)) (mk_change b m)) (mk_capture b m))
              (bxor (ep b) (mk_newep b m)).
 
 (* the rook's part of castling *)
@@ -53,9 +53,9 @@ Definition mk_board (z : zobrist) (b : board) (m : N) : board :=
     (full b + Z.of_N (cix (stm b)))%Z) (mk_fifty b m)) (bxor (castles b) (mk_change b m))) (mk_newep b m)) (flip (stm b)))
     (mk_hash z b m :: hashes b).
 
-Lemma make_eq z b m : make z b m = (mk_board z b m, mk_tok b m).
+Lemma make_eq l z b m : make_l l z b m = (mk_board z b m, mk_tok l b m).
 Proof.
-  unfold make. cbv zeta.
+  unfold make_l. cbv zeta.
   rewrite remove_piece_eq. cbv beta iota.
   rewrite remove_piece_eq. cbv beta iota.
   rewrite add_piece_eq. cbv beta iota.
@@ -85,14 +85,14 @@ Definition un_pl5 (B : board) (m : N) : board :=
   let me := flip (stm B) in
   addp (remp (rook_undo B me (rook_sqs (un_piece B m) (mv_from m) (mv_to m))) me (un_rm B m) (mv_to m))
        me (un_piece B m) (mv_from m).
-Definition un_ep (B : board) (r : N) : N := bxor (ep B) (tok_ep r).
-Definition un_csq (B : board) (m r : N) : N := capture_sq (set_ep (un_pl5 B m) (un_ep B r)) m.
-Definition un_pl6 (B : board) (m r : N) : board :=
-  addp (un_pl5 B m) (flip (flip (stm B))) (tok_capture r) (un_csq B m r).
+Definition un_ep (l : tok_layout) (B : board) (r : N) : N := bxor (ep B) (tok_ep l r).
+Definition un_csq (l : tok_layout) (B : board) (m r : N) : N := capture_sq (set_ep (un_pl5 B m) (un_ep l B r)) m.
+Definition un_pl6 (l : tok_layout) (B : board) (m r : N) : board :=
+  addp (un_pl5 B m) (flip (flip (stm B))) (tok_capture l r) (un_csq l B m r).
 
-Definition un_board (B : board) (m r : N) : board :=
-  set_full (set_fifty (set_castles (set_ep (set_stm (set_hashes (un_pl6 B m r) (tl (hashes B))) (flip (stm B)))
-    (un_ep B r)) (bxor (castles B) (tok_castling r))) (tok_fifty r)) (full B - Z.of_N (cix (flip (stm B))))%Z.
+Definition un_board (l : tok_layout) (B : board) (m r : N) : board :=
+  set_full (set_fifty (set_castles (set_ep (set_stm (set_hashes (un_pl6 l B m r) (tl (hashes B))) (flip (stm B)))
+    (un_ep l B r)) (bxor (castles B) (tok_castling l r))) (tok_fifty l r)) (full B - Z.of_N (cix (flip (stm B))))%Z.
 
 Lemma rook_undo_push b me rs h s :
   rook_undo (set_stm (set_hashes b h) s) me rs = set_stm (set_hashes (rook_undo b me rs) h) s.
@@ -107,9 +107,9 @@ Proof. reflexivity. Qed.
 Lemma capture_sq_strip b h s e m : capture_sq (set_ep (set_stm (set_hashes b h) s) e) m = capture_sq (set_ep b e) m.
 Proof. reflexivity. Qed.
 
-Lemma undo_eq z B m r : undo z B m r = un_board B m r.
+Lemma undo_eq l z B m r : undo_l l z B m r = un_board l B m r.
 Proof.
-  unfold undo. cbv zeta. rewrite !remove_piece_eq, !add_piece_eq. cbn [fst].
+  unfold undo_l. cbv zeta. rewrite !remove_piece_eq, !add_piece_eq. cbn [fst].
   unfold un_board, un_pl6, un_csq, un_pl5, un_ep, un_piece, un_rm, rook_sqs. cbv zeta.
   rewrite !piece_at_strip. cbn [stm hashes set_hashes set_stm].
   set (me := flip (stm B)).
@@ -432,22 +432,22 @@ Proof. intros H. unfold new_castles. cbv zeta. apply (ldiff_lt_pow2 _ _ 4). exac
 Lemma mk_change_lt b m : castles b < 16 -> mk_change b m < 16.
 Proof. intros H. unfold mk_change. apply (lxor_lt_pow2 _ _ 4); [exact H|apply new_castles_lt; exact H]. Qed.
 
-Lemma mk_tok_fields b m :
+Lemma mk_tok_fields l b m : layout_ok l = true ->
   ep b < 64 -> castles b < 16 -> mk_capture b m <= 6 -> (-32768 <= fifty b < 32768)%Z ->
-  tok_ep (mk_tok b m) = bxor (ep b) (mk_newep b m) /\ tok_capture (mk_tok b m) = mk_capture b m /\
-  tok_castling (mk_tok b m) = mk_change b m /\ tok_fifty (mk_tok b m) = fifty b.
+  tok_ep l (mk_tok l b m) = bxor (ep b) (mk_newep b m) /\ tok_capture l (mk_tok l b m) = mk_capture b m /\
+  tok_castling l (mk_tok l b m) = mk_change b m /\ tok_fifty l (mk_tok l b m) = fifty b.
 Proof.
-  intros He Hc Hp Hf. unfold mk_tok.
+  intros HL He Hc Hp Hf. unfold mk_tok.
   assert (E : bxor (ep b) (mk_newep b m) < 64) by (apply (lxor_lt_pow2 _ _ 6); [exact He|apply mk_newep_lt]).
   assert (C : mk_change b m < 16) by (apply mk_change_lt; exact Hc).
   assert (P : mk_capture b m < 8) by lia.
   repeat split.
-  - apply tok_ep_set_ep. exact E.
-  - rewrite tok_capture_set_ep by exact E. apply tok_capture_set_capture. exact P.
-  - rewrite tok_castling_set_ep by exact E. rewrite tok_castling_set_capture by exact P.
-    apply tok_castling_set_castling. exact C.
-  - rewrite tok_fifty_set_ep by exact E. rewrite tok_fifty_set_capture by exact P.
-    rewrite tok_fifty_set_castling by exact C. apply tok_fifty_set_fifty. exact Hf.
+  - apply (tok_ep_set_ep l HL). exact E.
+  - rewrite (tok_capture_set_ep l HL) by exact E. apply (tok_capture_set_capture l HL). exact P.
+  - rewrite (tok_castling_set_ep l HL) by exact E. rewrite (tok_castling_set_capture l HL) by exact P.
+    apply (tok_castling_set_castling l HL). exact C.
+  - rewrite (tok_fifty_set_ep l HL) by exact E. rewrite (tok_fifty_set_capture l HL) by exact P.
+    rewrite (tok_fifty_set_castling l HL) by exact C. apply (tok_fifty_set_fifty l HL). exact Hf.
 Qed.
 
 (* ------------------------------------------------------------------------------------------ *)
@@ -473,11 +473,11 @@ Proof. unfold bxor. rewrite (N.lxor_comm a c), <- N.lxor_assoc, N.lxor_nilpotent
 (* ------------------------------------------------------------------------------------------ *)
 (* C03, one move *)
 
-Theorem undo_make z b m : RepW b -> applicable b m = true ->
-  undo z (fst (make z b m)) m (snd (make z b m)) = b.
+Theorem undo_make l z b m : layout_ok l = true -> RepW b -> applicable b m = true ->
+  undo_l l z (fst (make_l l z b m)) m (snd (make_l l z b m)) = b.
 Proof.
-  intros [HR He Hc Hh Hf] HA. rewrite make_eq. cbn [fst snd]. rewrite undo_eq.
-  destruct (mk_tok_fields b m He Hc (fact_cap_le b m HR) Hf) as (T1 & T2 & T3 & T4).
+  intros HL [HR He Hc Hh Hf] HA. rewrite make_eq. cbn [fst snd]. rewrite undo_eq.
+  destruct (mk_tok_fields l b m HL He Hc (fact_cap_le b m HR) Hf) as (T1 & T2 & T3 & T4).
   set (B := mk_board z b m).
   assert (EB : B = scal (mk_pl b m) B) by reflexivity.
   assert (Hstm : flip (stm B) = stm b) by (apply flip_flip).
@@ -493,9 +493,9 @@ Proof.
   assert (P5 : un_pl5 B m = scal (remp b (flip (stm b)) (mk_capture b m) (capture_sq b m)) B).
   { unfold un_pl5. rewrite Hstm, Hrm, Hpc. rewrite EB at 1.
     rewrite rook_undo_scal, remp_scal, addp_scal, Hrook, H3, H2. reflexivity. }
-  assert (Eep : un_ep B (mk_tok b m) = ep b).
+  assert (Eep : un_ep l B (mk_tok l b m) = ep b).
   { unfold un_ep. rewrite T1. change (ep B) with (mk_newep b m). apply lxor_cancel'. }
-  assert (Csq : un_csq B m (mk_tok b m) = capture_sq b m).
+  assert (Csq : un_csq l B m (mk_tok l b m) = capture_sq b m).
   { unfold un_csq. apply capture_sq_ext.
     - exact Eep.
     - rewrite P5. exact Hfrom. }
@@ -511,17 +511,17 @@ Qed.
 (* ------------------------------------------------------------------------------------------ *)
 (* C03, null move *)
 
-Theorem undo_null_make_null z b : RepW b ->
-  undo_null (fst (make_null z b)) (snd (make_null z b)) = b.
+Theorem undo_null_make_null l z b : layout_ok l = true -> RepW b ->
+  undo_null_l l (fst (make_null_l l z b)) (snd (make_null_l l z b)) = b.
 Proof.
-  intros [HR He Hc Hh Hf]. unfold make_null, undo_null. cbv zeta.
+  intros HL [HR He Hc Hh Hf]. unfold make_null_l, undo_null_l. cbv zeta.
   destruct (N.eqb_spec (ep b) 0) as [E|E]; cbn [negb fst snd];
     apply board_ext; cbn [sq2p pcs cols hashes full stm ep castles fifty
                           set_hashes set_stm set_ep set_castles set_fifty set_full tl]; try reflexivity.
   - apply flip_flip.
-  - rewrite tok_ep_0. congruence.
+  - rewrite (tok_ep_0 l HL). congruence.
   - apply flip_flip.
-  - apply tok_ep_set_ep. exact He.
+  - apply (tok_ep_set_ep l HL). exact He.
 Qed.
 
 (* ------------------------------------------------------------------------------------------ *)
@@ -533,7 +533,7 @@ Proof. intros [L P0 W1 W2 S]. constructor; assumption. Qed.
 Lemma mk_fifty_range b m : (-32768 <= mk_fifty b m < 32768)%Z.
 Proof. unfold mk_fifty. destruct (_ || _); [lia|apply wrap16_range]. Qed.
 
-Theorem make_RepW z b m : RepW b -> applicable b m = true -> RepW (fst (make z b m)).
+Theorem make_RepW l z b m : RepW b -> applicable b m = true -> RepW (fst (make_l l z b m)).
 Proof.
   intros [HR He Hc Hh Hf] HA. rewrite make_eq. cbn [fst].
   constructor.
@@ -546,9 +546,9 @@ Proof.
   - apply mk_fifty_range.
 Qed.
 
-Theorem make_null_RepW z b : RepW b -> RepW (fst (make_null z b)).
+Theorem make_null_RepW l z b : RepW b -> RepW (fst (make_null_l l z b)).
 Proof.
-  intros [[L P0 W1 W2 S] He Hc Hh Hf]. unfold make_null. cbv zeta.
+  intros [[L P0 W1 W2 S] He Hc Hh Hf]. unfold make_null_l. cbv zeta.
   destruct (N.eqb_spec (ep b) 0) as [E|E]; cbn [negb fst]; (constructor; [constructor; assumption|..]);
     cbn [ep castles hashes fifty set_hashes set_stm set_ep]; try assumption; try discriminate; reflexivity.
 Qed.
@@ -593,7 +593,7 @@ Proof.
   repeat apply bxor_w64; try apply dz_w64; assumption.
 Qed.
 
-Theorem make_Rep z b m : zob_w64 z -> Rep b -> applicable b m = true -> Rep (fst (make z b m)).
+Theorem make_Rep l z b m : zob_w64 z -> Rep b -> applicable b m = true -> Rep (fst (make_l l z b m)).
 Proof.
   intros Z HR HA. apply Rep_iff in HR. destruct HR as [HW Hh]. apply RepW_Rep.
   - apply make_RepW; assumption.
@@ -601,12 +601,12 @@ Proof.
     constructor; [apply mk_hash_w64; assumption|exact Hh].
 Qed.
 
-Theorem make_null_Rep z b : zob_w64 z -> Rep b -> Rep (fst (make_null z b)).
+Theorem make_null_Rep l z b : zob_w64 z -> Rep b -> Rep (fst (make_null_l l z b)).
 Proof.
   intros Z HR. apply Rep_iff in HR. destruct HR as [HW Hh]. apply RepW_Rep.
   - apply make_null_RepW; assumption.
   - pose proof Z as (_ & Zs & _ & Ze). pose proof (cur_hash_w64 b Hh) as Hc.
-    unfold make_null. cbv zeta. destruct (negb (ep b =? 0)); cbn [fst hashes set_hashes set_stm set_ep];
+    unfold make_null_l. cbv zeta. destruct (negb (ep b =? 0)); cbn [fst hashes set_hashes set_stm set_ep];
       (constructor; [|exact Hh]); repeat apply bxor_w64; auto.
 Qed.
 
@@ -614,53 +614,55 @@ Qed.
 (* operations (move | null move), nesting *)
 
 Section Nest.
+Variable l : tok_layout.
 Variable z : zobrist.
+Hypothesis HL : layout_ok l = true.
 
 Lemma unstep_step b o : RepW b -> op_applicable b o = true ->
-  unstep z (fst (step z b o)) o (snd (step z b o)) = b.
+  unstep l z (fst (step l z b o)) o (snd (step l z b o)) = b.
 Proof.
   intros HR HA. destruct o as [m|]; cbn [step unstep op_applicable] in *.
   - apply undo_make; assumption.
   - apply undo_null_make_null; assumption.
 Qed.
 
-Lemma step_RepW b o : RepW b -> op_applicable b o = true -> RepW (fst (step z b o)).
+Lemma step_RepW b o : RepW b -> op_applicable b o = true -> RepW (fst (step l z b o)).
 Proof.
   intros HR HA. destruct o as [m|]; cbn [step op_applicable] in *.
   - apply make_RepW; assumption.
   - apply make_null_RepW; assumption.
 Qed.
 
-Lemma step_Rep b o : zob_w64 z -> Rep b -> op_applicable b o = true -> Rep (fst (step z b o)).
+Lemma step_Rep b o : zob_w64 z -> Rep b -> op_applicable b o = true -> Rep (fst (step l z b o)).
 Proof.
   intros Z HR HA. destruct o as [m|]; cbn [step op_applicable] in *.
   - apply make_Rep; assumption.
   - apply make_null_Rep; assumption.
 Qed.
 
-Lemma make_all_run b ops st : fst (make_all z b ops st) = run z b ops.
+Lemma make_all_run b ops st : fst (make_all l z b ops st) = run l z b ops.
 Proof.
   revert b st. induction ops as [|o rest IH]; intros b st; cbn [make_all run]; [reflexivity|].
-  destruct (step z b o) as [b' r]. cbn [fst]. apply IH.
+  destruct (step l z b o) as [b' r]. cbn [fst]. apply IH.
 Qed.
 
-Theorem undo_all_make_all ops : forall b st, RepW b -> applicable_all z b ops ->
-  undo_all z (fst (make_all z b ops st)) (snd (make_all z b ops st)) = undo_all z b st.
+Theorem undo_all_make_all ops : forall b st, RepW b -> applicable_all l z b ops ->
+  undo_all l z (fst (make_all l z b ops st)) (snd (make_all l z b ops st)) = undo_all l z b st.
 Proof.
   induction ops as [|o rest IH]; intros b st HR HA; cbn [make_all]; [reflexivity|].
   destruct HA as [HA1 HA2].
   pose proof (unstep_step b o HR HA1) as U. pose proof (step_RepW b o HR HA1) as R.
-  destruct (step z b o) as [b' r]. cbn [fst snd] in *.
+  destruct (step l z b o) as [b' r]. cbn [fst snd] in *.
   rewrite IH by assumption. cbn [undo_all]. rewrite U. reflexivity.
 Qed.
 
-Theorem run_RepW ops : forall b, RepW b -> applicable_all z b ops -> RepW (run z b ops).
+Theorem run_RepW ops : forall b, RepW b -> applicable_all l z b ops -> RepW (run l z b ops).
 Proof.
   induction ops as [|o rest IH]; intros b HR HA; cbn [run]; [exact HR|].
   destruct HA as [HA1 HA2]. apply IH; [apply step_RepW; assumption|exact HA2].
 Qed.
 
-Theorem run_Rep ops : zob_w64 z -> forall b, Rep b -> applicable_all z b ops -> Rep (run z b ops).
+Theorem run_Rep ops : zob_w64 z -> forall b, Rep b -> applicable_all l z b ops -> Rep (run l z b ops).
 Proof.
   intros Z. induction ops as [|o rest IH]; intros b HR HA; cbn [run]; [exact HR|].
   destruct HA as [HA1 HA2]. apply IH; [apply step_Rep; assumption|exact HA2].
@@ -669,22 +671,22 @@ Qed.
 (* the depth-first walk of the search: every board on the stack is restored exactly *)
 Inductive stack_ok : board -> list (op * N) -> board -> Prop :=
 | so_nil b : stack_ok b [] b
-| so_cons b o r st b0 bp : RepW bp -> op_applicable bp o = true -> step z bp o = (b, r) ->
+| so_cons b o r st b0 bp : RepW bp -> op_applicable bp o = true -> step l z bp o = (b, r) ->
     stack_ok bp st b0 -> stack_ok b ((o, r) :: st) b0.
 
-Lemma stack_ok_undo_all b st b0 : stack_ok b st b0 -> undo_all z b st = b0.
+Lemma stack_ok_undo_all b st b0 : stack_ok b st b0 -> undo_all l z b st = b0.
 Proof.
   induction 1 as [b|b o r st b0 bp HR HA E S IH]; cbn [undo_all]; [reflexivity|].
   pose proof (unstep_step bp o HR HA) as U. rewrite E in U. cbn [fst snd] in U. rewrite U. exact IH.
 Qed.
 
-Theorem walk_inv evs : forall b st b0, RepW b -> stack_ok b st b0 -> walk_ok z b st evs ->
-  RepW (fst (walk z b st evs)) /\ stack_ok (fst (walk z b st evs)) (snd (walk z b st evs)) b0.
+Theorem walk_inv evs : forall b st b0, RepW b -> stack_ok b st b0 -> walk_ok l z b st evs ->
+  RepW (fst (walk l z b st evs)) /\ stack_ok (fst (walk l z b st evs)) (snd (walk l z b st evs)) b0.
 Proof.
   induction evs as [|e rest IH]; intros b st b0 HR HS HW; cbn [walk]; [split; assumption|].
   destruct e as [o|]; cbn [walk_ok] in HW.
   - destruct HW as [HA HW]. pose proof (step_RepW b o HR HA) as R.
-    destruct (step z b o) as [b' r] eqn:E. cbn [fst] in R. apply IH; try assumption.
+    destruct (step l z b o) as [b' r] eqn:E. cbn [fst] in R. apply IH; try assumption.
     exact (so_cons b' o r st b0 b HR HA E HS).
   - destruct st as [|[o r] st'].
     + apply IH; assumption.
@@ -693,8 +695,8 @@ Proof.
       rewrite U in *. apply IH; assumption.
 Qed.
 
-Theorem walk_restores evs b : RepW b -> walk_ok z b [] evs ->
-  undo_all z (fst (walk z b [] evs)) (snd (walk z b [] evs)) = b.
+Theorem walk_restores evs b : RepW b -> walk_ok l z b [] evs ->
+  undo_all l z (fst (walk l z b [] evs)) (snd (walk l z b [] evs)) = b.
 Proof.
   intros HR HW. apply stack_ok_undo_all. apply (walk_inv evs b [] b HR (so_nil b) HW).
 Qed.
